@@ -7,6 +7,8 @@ import GoSecs.Drv.Supervisor
 import GoSecs.Drv.Hsms
 import GoSecs.Drv.Construct
 import GoSecs.Drv.Secs1
+import GoSecs.Drv.Linktest
+import GoSecs.Drv.Responder
 
 open GoSecs
 
@@ -16,7 +18,9 @@ def handlers : List (String → List String → Option String) := [
   Drv.Supervisor.handle,
   Drv.Hsms.handle,
   Drv.Construct.handle,
-  Drv.Secs1.handle
+  Drv.Secs1.handle,
+  Drv.Linktest.handle,
+  Drv.Responder.handle
 ]
 
 def dispatch (line : String) : String :=
